@@ -39,7 +39,8 @@ class C01(Prop):
                  '3 0 do I 1 == if break then I loop', '2 0 do 2 0 do J I break loop loop', ': f 3 0 do I local x x loop ; f',
                  '1 var v v 2 ! v v', 'begin break repeat', '0 begin 1 + dup 3 > if break then repeat', '3 0 do 9 break 8 loop',
                  'begin begin break repeat break repeat 4', '1 case 1 of 2 case 2 of 3 endof endcase endof endcase',
-                 '1 0 do 7 loop 8', ': f begin 1 break repeat ; f f']
+                 '1 0 do 7 loop 8', ': f begin 1 break repeat ; f f', ': f local x x 1 + local x x ; 5 f',
+                 ': g local a local b a b + local a a b ; 1 2 g', ': h local x 3 0 do x I + local x loop x ; 10 h']
         for f in fixed:
             cs.append('c1 6000 %s' % hexsrc(f))
         # exhaustive small scope over a reduced alphabet
@@ -54,6 +55,23 @@ class C01(Prop):
                 if n == k and rng.random() > (0.25 if thorough else 0.04):
                     continue
                 cs.append('c1 300 %s' % hexsrc(' '.join(tup)))
+        # definitions whose locals are redeclared (the newest declaration wins), in straight line code, branches and loops
+        for i in range(150 if not thorough else 3000):
+            names = ['x', 'y', 'z'][:rng.randint(1, 3)]
+            body = ' '.join('local %s' % nm for nm in names)
+            for _ in range(rng.randint(1, 4)):
+                nm = rng.choice(names)
+                upd = '%s %s local %s' % (rng.choice(names), rng.choice(['1 +', '2 *', 'neg', 'dup *', 'drop 7']), nm)
+                form = rng.random()
+                if form < 0.5:
+                    body += ' ' + upd
+                elif form < 0.75:
+                    body += ' %s 0 > if %s then' % (rng.choice(names), upd)
+                else:
+                    body += ' 2 0 do %s loop' % upd
+            body += ' ' + ' '.join(names)
+            args = ' '.join(str(rng.randint(-3, 9)) for _ in names)
+            cs.append('c1 6000 %s' % hexsrc(': f %s ; %s f' % (body, args)))
         n = 2500 if not thorough else 60000
         for i in range(n):
             g = Gen(rng, meta=False, bad=0.03 if i % 5 else 0.12, io=(i % 3 == 0), reals=False)
